@@ -17,6 +17,7 @@ EXTENDS Naturals, FiniteSets, TLC, Json
 CONSTANTS MaxWords, EmitCases
 
 Types72   == {"103", "202", "205"}          \* types with the classification
+Type79    == "199"                          \* free format: MT199 classifies itself by the FIRST line of its narrative (field 79)
 OtherType == "200"                          \* a type with field 72 but no classification support
 Words == {"/REJT/", "/RETN/", "/RJT/", "/RET/", "REJTBARE", "/rejt/", "/REJTX/", "/COV/", "/COVER/"}
 Murs  == {"none", "REJT", "RETN", "MUR12345", "XREJTY"}
@@ -27,21 +28,22 @@ VARIABLES mt, words, mur, flag, covseq
 vars == <<mt, words, mur, flag, covseq>>
 
 Init ==
-  /\ mt \in Types72 \cup {OtherType}
+  /\ mt \in Types72 \cup {OtherType, Type79}
   /\ words \in {w \in SUBSET Words : Cardinality(w) <= MaxWords}
   /\ mur \in Murs /\ flag \in Flags
   /\ covseq \in BOOLEAN
   /\ covseq => mt = "202"
   /\ (flag \in {"REJT", "RETN", "COV"}) => mt \in {"202", "205"}
   /\ (flag = "STP") => mt = "103"
+  /\ (mt = Type79) => (Cardinality(words) <= 1 /\ mur = "none" /\ flag = "none")   \* the word stands at the start of line 1
 Next == UNCHANGED vars
 Spec == Init /\ [][Next]_vars
 
 MurHas(w) == (w = "REJT" /\ mur \in {"REJT", "XREJTY"}) \/ (w = "RETN" /\ mur = "RETN")
 
 Supports == mt \in Types72
-RefReject == MurHas("REJT") \/ (Supports /\ "/REJT/" \in words)
-RefReturn == MurHas("RETN") \/ (Supports /\ "/RETN/" \in words)
+RefReject == MurHas("REJT") \/ (Supports /\ "/REJT/" \in words) \/ (mt = Type79 /\ words = {"/REJT/"})
+RefReturn == MurHas("RETN") \/ (Supports /\ "/RETN/" \in words) \/ (mt = Type79 /\ words = {"/RETN/"})
 RefCover  == (mt = "202" /\ covseq) \/ (mt = "205" /\ (words \cap {"/COV/", "/COVER/"}) # {})
 
 (* method implied by the classifications (lib* = the predicates as the library evaluates
@@ -55,7 +57,7 @@ Method(libReject, libReturn, libCover, libStp) ==
   ELSE "normal"
 
 (* design-level properties of the reference classification *)
-ReturnOnlyIsNotReject == (words = {"/RETN/"} /\ mur = "none") => (RefReturn \/ ~Supports) /\ ~RefReject
+ReturnOnlyIsNotReject == (words = {"/RETN/"} /\ mur = "none") => (RefReturn \/ ~(Supports \/ mt = Type79)) /\ ~RefReject
 LookAlikesDoNotClassify ==
   (words \subseteq {"/RJT/", "/RET/", "REJTBARE", "/rejt/", "/REJTX/"} /\ mur \in {"none", "MUR12345"})
      => ~RefReject /\ ~RefReturn
